@@ -340,4 +340,14 @@ def float_stores(repo: Repo) -> RuleRun:
 
 float_stores.rule_id = "C17.FLOAT-STORES"
 
-RULES = [purity, position_writers, link_algebra, affine_kinds, mirror_matrix, trig_domain, params_used, owns_geometry, angle_dimension, closest_search, float_stores]
+def who_writes_points(repo: Repo) -> RuleRun:
+    """'every evaluation of the objective leaves leader and followers in the relation': what GridBase.update writes and returns. Same rule as C13.WHO-WRITES-POINTS."""
+    from ..report import rebrand
+    from . import c13
+
+    return rebrand(c13.who_writes_points(repo), PROP, "C17.WHO-WRITES-POINTS")
+
+
+who_writes_points.rule_id = "C17.WHO-WRITES-POINTS"
+
+RULES = [purity, position_writers, link_algebra, affine_kinds, mirror_matrix, trig_domain, params_used, owns_geometry, angle_dimension, closest_search, float_stores, who_writes_points]
